@@ -21,14 +21,23 @@ def _canon_td(x):
         items = sorted(((k if isinstance(k, str) else ".".join(k)), v) for k, v in x.items(True, True))
         nodes = sorted((k if isinstance(k, str) else ".".join(k)) for k in x.keys(True, False) if k not in x.keys(True, True))
         return ["td", type(x).__name__, list(x.batch_size), _names(x), bool(x.is_locked), nodes,
-                [[k, list(v.shape), str(v.dtype), v.reshape(-1).tolist()] if isinstance(v, torch.Tensor) else [k, "py", repr(v)] for k, v in items]]
+                [[k, list(v.shape), str(v.dtype), _vals(v)] + ([type(v).__name__, bool(v.requires_grad)] if (v.requires_grad or type(v) is not torch.Tensor) else [])
+                 if isinstance(v, torch.Tensor) else [k, "py", repr(v)] for k, v in items]]
     if isinstance(x, torch.Tensor):
-        return ["t", list(x.shape), str(x.dtype), x.reshape(-1).tolist()]
+        return ["t", list(x.shape), str(x.dtype), _vals(x)]
     if isinstance(x, (list, tuple)):
         return ["seq"] + [_canon_td(i) for i in x]
     if isinstance(x, dict):
         return ["dict"] + [[str(k), _canon_td(v)] for k, v in sorted(x.items(), key=lambda kv: str(kv[0]))]
     return ["py", repr(x)]
+
+
+def _vals(v):
+    """exact for integer / bool data; floats rounded to 1e-4 (backends may fuse float arithmetic differently)"""
+    v = v.detach()
+    if v.is_floating_point() or v.is_complex():
+        return [("nan" if a != a else round(float(a), 4)) if not isinstance(a, complex) else repr(a) for a in v.reshape(-1).tolist()]
+    return v.reshape(-1).tolist()
 
 
 def _names(x):
@@ -118,7 +127,7 @@ def gen_program(rng, tier):
     round-2 vocabulary (names, lock, tuple keys, lazy stacks, tensorclass, tensordict.nn, consolidate, ...)."""
     import c18_ops as O
     shapes = [(3,), (2, 3), (3, 1), (2, 2, 2), (1,), (4, 2)]
-    kind = rng.choice(["td", "td", "td", "named", "named", "lazy", "tc"])
+    kind = rng.choice(["td", "td", "td", "named", "named", "lazy", "tc", "tdp"])
     shape = rng.choice(shapes)
     n = rng.randint(1, 6)
     ops = []
@@ -279,6 +288,10 @@ CORPUS = [
     ((2, 3), "lazy", ["tc_from_td"]), ((2, 3), "tc", ["lazy_stack0"]),
     # permuting a lazy stack under compile (numpy integer as stack_dim, repaired in round 2)
     ((2, 3), "lazy", ["permute_rev"]),
+    # TensorDictParams._new_unsafe under compile kept neither the batch size nor the class (defect repaired in round 2)
+    ((2, 3), "tdp", ["gather0"]), ((2, 3), "tdp", ["mul2", "idx0"]),
+    # consolidate on strided / offset leaves (compile branch of the contiguity test)
+    ((2, 3), "td", ["transpose01", "idx_tail", "consolidate"]),
     # batch size spelled as a bare int 0 (seeded C18-2)
     ((3,), "td", ["construct_int0"]),
     # nested key whose sub-tuple unravels to one multi-character name (seeded C18-3)
@@ -293,6 +306,9 @@ def programs(run):
     backends = ["eager"] if run.tier == "quick" else ["eager", "aot_eager", "inductor"]
     nprog = 36 if run.tier == "quick" else 220
     progs = list(CORPUS)
+    if run.tier == "thorough":
+        # the open finding C18-consolidate-aot-alias, re-derived on every thorough run (explicit backend)
+        progs.append(((2, 3), "td", ["idx_tail", "consolidate"], "aot_eager"))
     tries = 0
     while len(progs) < nprog and tries < 20 * nprog:
         tries += 1
@@ -306,8 +322,9 @@ def programs(run):
     for lg in ("torch._dynamo", "torch._inductor", "torch.fx"):
         logging.getLogger(lg).setLevel(logging.ERROR)
     live = live_torch_bugs(run)
-    for i, (shape, kind, ops) in enumerate(progs):
-        be = backends[i % len(backends)]
+    for i, prog in enumerate(progs):
+        shape, kind, ops = prog[:3]
+        be = prog[3] if len(prog) > 3 else backends[i % len(backends)]
         e = run_eager(shape, kind, ops)
         try:
             c = run_compiled(shape, kind, ops, be)
@@ -326,8 +343,10 @@ def programs(run):
             run.count("prog.torch_bug", bug["id"])
             continue
         if e != c:
+            errsig = LAST_COMPILED_ERROR[0].split("\n")[0][:160] if c == "err" else ("eager-raises" if e == "err" else "values")
             run.oracle_fail("program", {"shape": list(shape), "input": kind, "ops": ops, "backend": be},
-                            f"eager={str(e)[:300]} compiled={str(c)[:300]}", "prog:" + kind + ":" + ",".join(ops))
+                            f"eager={str(e)[:300]} compiled={str(c)[:300]} {LAST_COMPILED_ERROR[0][:200] if c == 'err' else ''}",
+                            f"prog:{be}:{kind}:{','.join(ops)}|{errsig}")
         else:
             run.oracle_ok("program")
         if i in (5, 9, 20):
